@@ -56,7 +56,7 @@ func sortedInts(v tla.Value) []int {
 
 func stateKey(get func(string) tla.Value) string {
 	var sb strings.Builder
-	for _, n := range []string{"chain", "content", "pool", "sb", "orph", "obp", "penny", "stale"} {
+	for _, n := range []string{"chain", "content", "pool", "sb", "orph", "obp", "penny", "stale", "step"} {
 		sb.WriteString(get(n).String())
 		sb.WriteByte('|')
 	}
@@ -84,45 +84,32 @@ func ParseSpecState(st tla.State) *SpecState {
 }
 
 // Exp is the result code table of one state.
-type Exp struct{ PT1, PT0, MA1, MA0 []int }
+type Exp struct {
+	PT1, PT0, MA1, MA0 []int
+	EV                 [][]int
+}
 
-// ParseExpOutput extracts the << "@EXP", state, exp >> tuples TLC printed.
+// ParseExpOutput extracts the "<<424242, state, exp>>" lines TLC printed.
 func ParseExpOutput(out string) (map[string]*Exp, error) {
 	res := map[string]*Exp{}
-	const marker = `<< "@EXP",`
-	for {
-		i := strings.Index(out, marker)
-		if i < 0 {
-			break
+	const marker = `"<<424242,`
+	for _, line := range strings.Split(out, "\n") {
+		line = strings.TrimSpace(line)
+		if !strings.HasPrefix(line, marker) || !strings.HasSuffix(line, `"`) {
+			continue
 		}
-		// find the end of the tuple by bracket balance (no strings with brackets inside)
-		depth := 0
-		j := i
-		for ; j < len(out); j++ {
-			if strings.HasPrefix(out[j:], "<<") {
-				depth++
-				j++
-			} else if strings.HasPrefix(out[j:], ">>") {
-				depth--
-				j++
-				if depth == 0 {
-					j++
-					break
-				}
-			}
-		}
-		if depth != 0 {
-			return nil, fmt.Errorf("unbalanced @EXP tuple in TLC output")
-		}
-		v, err := tla.ParseValue(out[i:j])
+		v, err := tla.ParseValue(line[1 : len(line)-1])
 		if err != nil {
-			return nil, fmt.Errorf("@EXP tuple: %w", err)
+			return nil, fmt.Errorf("EmitExp line: %w", err)
 		}
 		el := v.Seq()
 		rec, ex := el[1], el[2]
 		key := stateKey(func(n string) tla.Value { return rec.F(n) })
-		res[key] = &Exp{PT1: ex.F("pt1").Ints(), PT0: ex.F("pt0").Ints(), MA1: ex.F("ma1").Ints(), MA0: ex.F("ma0").Ints()}
-		out = out[j:]
+		e := &Exp{PT1: ex.F("pt1").Ints(), PT0: ex.F("pt0").Ints(), MA1: ex.F("ma1").Ints(), MA0: ex.F("ma0").Ints()}
+		for _, s := range ex.F("ev").Seq() {
+			e.EV = append(e.EV, sortedInts(s))
+		}
+		res[key] = e
 	}
 	return res, nil
 }
